@@ -108,6 +108,40 @@ theorem seal_wrap_counterexample_prefix :
   rw [List.reverse_cons, List.reverse_replicate, hm, lastStore_clears] at h2
   cases h2
 
+/-- below the wrap the code before the fix and the code after it do the same -/
+theorem runOld_eq_run (c : Cache) (ops : List Op) (h : c.sl.toNat + nclears ops < 4294967296) :
+    c.runOld ops = c.run ops := by
+  induction ops generalizing c with
+  | nil => rfl
+  | cons op ops ih =>
+    simp only [Cache.runOld, Cache.run, List.foldl_cons] at ih ⊢
+    cases op with
+    | insert k v => exact ih (c.insert k v) (by simpa [nclears, Cache.insert] using h)
+    | clearKey k => exact ih (c.clearKey k) (by simpa [nclears, Cache.clearKey] using h)
+    | reload =>
+      refine ih c.reload ?_
+      rw [reload_eq]; simpa [nclears] using h
+    | clear =>
+      simp only [nclears] at h
+      have hne : c.sl + 1 ≠ 0 := by
+        intro e
+        have := congrArg UInt32.toNat e
+        simp [UInt32.toNat_add] at this
+        omega
+      have hcl : c.clear = c.clearOld := by simp [Cache.clear, Cache.clearOld, hne]
+      simp only [Cache.stepOld, Cache.step, hcl]
+      refine ih c.clearOld ?_
+      have := succ_toNat_of_ne_zero c.sl hne
+      simp only [Cache.clearOld]; omega
+
+/-- **find_sound_prefix_partial** — what does hold for the code before the fix: the statement of
+    `find_sound` for every history with fewer than 2^32 - 1 `clear()`s -/
+theorem find_sound_prefix_partial (idx : Key → Nat) (dom : List Nat) (ops : List Op) (hc : nclears ops < 4294967295)
+    (k : Key) (hk : k.empty = false) (v : Fit) (h : ((Cache.init idx dom).runOld ops).find k = some v) :
+    lastStore k ops.reverse = some v := by
+  rw [runOld_eq_run _ _ (by simp only [Cache.init, toNat_one]; omega)] at h
+  exact find_sound idx dom ops k hk v h
+
 /-- with the fix the same history misses (an instance of `find_sound`) -/
 theorem seal_wrap_fixed (idx dom) (k : Key) (hk : k.empty = false) (v : Fit) (N : Nat) (_hN : N = 4294967296) :
     ((Cache.init idx dom).run (Op.insert k v :: List.replicate N Op.clear)).find k = none := by
